@@ -201,7 +201,7 @@ def run(ck):
             las = fio.make_las(ck.rng, minor, fmt, n, scales=rs, offsets=ro)
             for d in "XYZ":
                 las.points.array[d] = np.array([ck.rng.choice([1, 2, 3, 12345, -7, 999999, ck.rng.randrange(-10**6, 10**6)]) for _ in range(n)], dtype="i4")
-            how = ck.rng.choice(["coarser", "finer", "shifted", "nearly_equal_offset", "nearly_equal_scale"])
+            how = ck.rng.choice(["coarser", "finer", "shifted", "nearly_equal_offset", "nearly_equal_scale", "overflow_on_later_axis"])
             hs, ho = list(rs), list(ro)
             if how == "coarser":
                 hs = [x * ck.rng.choice([10.0, 4.0, 3.0]) for x in rs]
@@ -209,6 +209,12 @@ def run(ck):
                 hs = [x / ck.rng.choice([10.0, 4.0]) for x in rs]
             elif how == "shifted":
                 ho = [x + ck.rng.choice([1.0, -0.3, 17.5]) for x in ro]
+            elif how == "overflow_on_later_axis":
+                # x (and maybe y) can be re-expressed, a later axis cannot: the write is refused as a whole
+                ax_bad = ck.rng.choice([1, 2])
+                hs = [x / 4.0 for x in rs]
+                hs[ax_bad] = rs[ax_bad] / 1e6
+                las.points.array["XYZ"[ax_bad]] = np.array([ck.rng.choice([999999, -888888]) for _ in range(n)], dtype="i4")
             elif how == "nearly_equal_offset":
                 ho = [x + (3.0 if abs(x) > 1e5 else 2.0 ** -30) for x in ro]
             else:
